@@ -528,6 +528,43 @@ def unit_methods(unit):
                     agg.outcomes["method-agree"] += 1
                   if obs(v) != b:
                     agg.violation(V(f"method.{kind}.{name}", "operand-modified", case, None, None, py))
+    # "at every data size": long vectors (around 256 / 300 / 1025 elements) whose cells include the awkward ones - a NUL character, a
+    # line break, a separator-like text, the empty string - with and without one None far inside: element i is still the method of element i
+    if policy == "fresh":
+        awkward = {"str": ["a\x00b", "line\nbreak", "a|b,c;d", "", "ß", "x"], "int": [0, -1, 2 ** 70], "float": [0.0, -0.0, 1e300], "date": [D1, D2],
+                   "float+int": [1, 2.5]}.get(kind, list(alpha))
+        for name in names:
+            cls_attr = getattr(pytype, name)
+            is_prop = not callable(cls_attr)
+            try:
+                for a in awkward + list(alpha):
+                    getattr(a, name) if is_prop else getattr(a, name)()
+            except Exception:
+                continue
+            for size in (255, 256, 257, 300, 1025):
+                for with_none in (False, True):
+                    data = [(awkward + list(alpha))[i % (len(awkward) + len(alpha))] for i in range(size)]
+                    if with_none:
+                        data[size // 2] = None
+                    want = [None if x is None else (getattr(x, name) if is_prop else getattr(x, name)()) for x in data]
+                    agg.evals += 1; agg.transitions += 1; agg.states += 1; agg.nontrivial += 1; agg.compared += 1
+                    case = {"kind": kind, "method": name, "size": size, "holds_none": with_none, "data": [repr(x) for x in data[:8]], "long": True}
+                    try:
+                        v = Vector(list(data))
+                        res = getattr(v, name) if is_prop else getattr(v, name)()
+                    except Exception as e:
+                        agg.violation(V(f"method.{kind}.{name}.long", "raises-" + type(e).__name__, case, None, repr(e)[:100]))
+                        continue
+                    got = result_list(res)
+                    if got is None:
+                        agg.violation(V(f"method.{kind}.{name}.long", "result-not-a-vector", case, None, repr(res)[:60]))
+                    elif len(got) != len(want):
+                        agg.violation(V(f"method.{kind}.{name}.long", "wrong-length", case, len(want), len(got)))
+                    elif not same_list(got, want):
+                        i = [k for k, (g, w) in enumerate(zip(got, want)) if not same_list([g], [w])][0]
+                        agg.violation(V(f"method.{kind}.{name}.long", "wrong-values", dict(case, first_wrong_index=i), repr(want[i]), repr(got[i])))
+                    else:
+                        agg.outcomes["method-agree"] += 1
     # histories: call the broadcast method, edit the vector in place, call the SAME method again (a proxy or a
     # result must never be remembered across a write)
     for name in names:
